@@ -227,6 +227,9 @@ def main(argv, here, repo):
     except HarnessError as e:
         print("HARNESS ERROR:", e, file=sys.stderr)
         return 2
+    except Exception:  # noqa: BLE001
+        print("HARNESS ERROR: unexpected exception in the check itself:\n" + traceback.format_exc(), file=sys.stderr)
+        return 2
 
     known, _fixed = load_findings(here)
     known = [k for k in known if k.get("property") == prop_id]
